@@ -376,9 +376,29 @@ class Spec:
 
 def gen_connmem():
     from extract import c_eval, HEADER, GEN
-    v = c_eval('#include "MHD_config.h"\n#include "internal.h"\n', [("inc", "%d", "(int) MHD_BUF_INC_SIZE")])
-    out = HEADER % "src/microhttpd/internal.h" + "namespace Mhd.Gen.ConnMem\n" \
-        + "def bufIncSize : Nat := %s\n" % v["inc"] + "end Mhd.Gen.ConnMem\n"
+    v = c_eval('#include "MHD_config.h"\n#include "connection.c"\n',
+               [("inc", "%d", "(int) MHD_BUF_INC_SIZE"),
+                ("maxh", "%d", "(int) MHD_MAX_REASONABLE_HEADERS_SIZE_"), ("maxt", "%d", "(int) MHD_MAX_REASONABLE_REQ_TARGET_SIZE_"),
+                ("minh", "%d", "(int) MHD_MIN_REASONABLE_HEADERS_SIZE_"), ("mint", "%d", "(int) MHD_MIN_REASONABLE_REQ_TARGET_SIZE_"),
+                ("minm", "%d", "(int) MHD_MIN_REASONABLE_REQ_METHOD_SIZE_"), ("minc", "%d", "(int) MHD_MIN_REASONABLE_REQ_CHUNK_LINE_LENGTH_"),
+                ("sh", "%d", "(int) MHD_PROC_RECV_HEADERS"), ("sc", "%d", "(int) MHD_PROC_RECV_COOKIE"),
+                ("sbn", "%d", "(int) MHD_PROC_RECV_BODY_NORMAL"), ("sbc", "%d", "(int) MHD_PROC_RECV_BODY_CHUNKED"),
+                ("sf", "%d", "(int) MHD_PROC_RECV_FOOTERS"),
+                ("c413", "%d", "(int) MHD_HTTP_CONTENT_TOO_LARGE"), ("c414", "%d", "(int) MHD_HTTP_URI_TOO_LONG"),
+                ("c431", "%d", "(int) MHD_HTTP_REQUEST_HEADER_FIELDS_TOO_LARGE"), ("c501", "%d", "(int) MHD_HTTP_NOT_IMPLEMENTED"),
+                ("hostlen", "%d", "(int) MHD_STATICSTR_LEN_ (MHD_HTTP_HEADER_HOST)")],
+               extra=["-O1", "-ffunction-sections", "-fdata-sections", "-Wl,--gc-sections"])
+    out = HEADER % "src/microhttpd/internal.h, connection.c" + "namespace Mhd.Gen.ConnMem\n" \
+        + "def bufIncSize : Nat := %s\n" % v["inc"] \
+        + "def maxReasonableHeaders : Nat := %s\ndef maxReasonableTarget : Nat := %s\n" % (v["maxh"], v["maxt"]) \
+        + "def minReasonableHeaders : Nat := %s\ndef minReasonableTarget : Nat := %s\n" % (v["minh"], v["mint"]) \
+        + "def minReasonableMethod : Nat := %s\ndef minReasonableChunkLine : Nat := %s\n" % (v["minm"], v["minc"]) \
+        + "def stageHeaders : Nat := %s\ndef stageCookie : Nat := %s\ndef stageBodyNormal : Nat := %s\n" % (v["sh"], v["sc"], v["sbn"]) \
+        + "def stageBodyChunked : Nat := %s\ndef stageFooters : Nat := %s\n" % (v["sbc"], v["sf"]) \
+        + "def httpContentTooLarge : Nat := %s\ndef httpUriTooLong : Nat := %s\n" % (v["c413"], v["c414"]) \
+        + "def httpHeaderFieldsTooLarge : Nat := %s\ndef httpNotImplemented : Nat := %s\n" % (v["c431"], v["c501"]) \
+        + "def hostNameLen : Nat := %s\n" % v["hostlen"] \
+        + "end Mhd.Gen.ConnMem\n"
     return vlib.write_if_changed(os.path.join(GEN, "ConnMem.lean"), out)
 
 
